@@ -41,8 +41,28 @@ E3 == {<<>>, Sa, <<98, 98>>}
 Disjoint(l, d) == \A i \in 1..Len(l) : \A j \in 1..Len(l[i]) : \A k \in 1..Len(d) : l[i][j] # d[k]
 HasD(s, d) == IndexOf(s, d) # 0
 
+\* ---- integers of the whole 64-bit type (ExprWideInt)
+W60 == W(FALSE, <<49, 49, 53, 50, 57, 50, 49, 53, 48, 52, 54, 48, 54, 56, 52, 54, 57, 55, 54>>)       \* 2^60
+W61 == W(FALSE, <<50, 51, 48, 53, 56, 52, 51, 48, 48, 57, 50, 49, 51, 54, 57, 51, 57, 53, 50>>)       \* 2^61
+W62 == W(FALSE, <<52, 54, 49, 49, 54, 56, 54, 48, 49, 56, 52, 50, 55, 51, 56, 55, 57, 48, 52>>)       \* 2^62
+W32 == W(FALSE, <<52, 50, 57, 52, 57, 54, 55, 50, 57, 54>>)       \* 2^32
+W31 == W(FALSE, <<50, 49, 52, 55, 52, 56, 51, 54, 52, 56>>)       \* 2^31
+ASSUME W60 = WPow2(60) /\ W61 = WPow2(61) /\ W62 = WPow2(62) /\ W32 = WPow2(32) /\ W31 = WPow2(31)
+\* the 3-bit machine inside the 64-bit one: v |-> v * 2^61 commutes with + - < and with wrap-around
+T3 == (0 - 4)..3
+Scale(v) == WMulInt(W61, v)
+SI(v) == WText(Scale(v))
+WI(w) == Lit(WText(w))
+\* values next to the ends of the type and to zero
+NearPts == {WMin64, WAdd(WMin64, WOne), WAdd(WMin64, WOfInt(2)), WOfInt(0 - 2), WOfInt(0 - 1), WZero, WOne, WOfInt(2),
+            WSub(WMax64, WOfInt(2)), WSub(WMax64, WOne), WMax64}
+NearIncr == {WOne, WOfInt(2), WOfInt(0 - 1), WOfInt(0 - 2), WMax64, WMin64, WNeg(WMax64), W62, WNeg(W62), WAdd(W62, WOne),
+             WSub(WMax64, WOne), WAdd(W62, W61), WNeg(WAdd(W62, W61))}
+Huge == {WMax64, WSub(WMax64, WOne), W32, W31, WAdd(W62, WOne)}
+
 Laws == {"joinsplit", "splitjoin", "splitcount", "len", "select", "slice", "slicecat", "selslice", "docs",
-         "map", "filter", "reduce", "range", "for", "in", "concat", "keys", "static"}
+         "map", "filter", "reduce", "range", "for", "in", "concat", "keys", "static",
+         "embed", "rangesmall", "rangewide", "slicesmall", "slicewide", "forwide"}
 
 Cases(law) ==
   CASE law = "joinsplit" -> UNION {Pairs(Strs(AlphaOf(d), SL), {d}) : d \in Delims}
@@ -63,6 +83,13 @@ Cases(law) ==
     [] law = "concat" -> Lists(E3 \cup {Sc}, 4) \ {<<>>}
     [] law = "keys" -> Lists(NE, 3) \ {<<>>}
     [] law = "static" -> {1}
+    [] law = "embed" -> Triples(T3, T3, T3)
+    [] law = "rangesmall" -> Triples((0 - 4)..6, (0 - 4)..7, ((0 - 3)..3) \ {0})
+    [] law = "rangewide" -> Triples(NearPts, NearPts, NearIncr)
+    [] law = "slicesmall" -> UNION {Triples({n}, (0 - (n + 2))..(n + 2), (0 - 1)..(n + 2)) : n \in 0..4}
+    [] law = "slicewide" -> Triples(0..4, (0 - 6)..6, Huge)
+    [] law = "forwide" -> Triples({WSub(WMax64, WOfInt(3)), WMin64, W62, WNeg(W62), WOfInt(5), WAdd(WMin64, WOfInt(2))},
+                                  {WOne, WOfInt(0 - 1), W61, WNeg(W61), W62, WOfInt(3)}, 0..4)
 
 Prefix(r, l) == Len(r) <= Len(l) /\ \A i \in 1..Len(r) : r[i] = l[i]
 
@@ -231,6 +258,60 @@ LawOK(law, x) ==
          /\ IsStatic(Call("@for", <<Lit(I(0)), Call("lt", <<A0, Lit(I(3))>>), Call("sumi", <<A0, A1>>)>>))
          /\ Ev(Call("@select", <<A0, A1>>), <<Sa, I(0)>>).k = "marker"
          /\ Ev(Call("@select", <<A0, Call("@reduce", <<Call("@range", <<Lit(I(3))>>), Call("sumi", <<A0, A1>>)>>)>>), <<Render(Dist(5))>>) = OutS(<<121>>)
+    [] law = "embed" ->
+         \* the 64-bit @range on the arguments of the 3-bit machine scaled by 2^61 is the scaled 3-bit range
+         \* (ExprArrayWidth: the loop of the code produces RangeInts on every 3..6-bit machine)
+         LET a == x[1]  b == x[2]  s == x[3]
+             e == Ev(Call("@range", <<Lit(SI(a)), Lit(SI(b)), Lit(SI(s))>>), <<>>)
+             ri == RangeInts(a, b, s)
+         IN IF s = 0 THEN e.k = "marker"
+            ELSE IF (s > 0 /\ a > b) \/ (s < 0 /\ a < b) THEN e.k = "any"
+            ELSE OutIs(e, Render([k \in 1..Len(ri) |-> SI(ri[k])]))
+    [] law = "rangesmall" ->
+         \* where TLC's integers reach, the digit-sequence generator is the closed form
+         LET a == x[1]  b == x[2]  s == x[3] IN
+         ~((s > 0 /\ a > b) \/ (s < 0 /\ a < b)) =>
+           RangeW(WOfInt(a), WOfInt(b), WOfInt(s), MAXGEN + 1) = RangeL(a, b, s)
+    [] law = "rangewide" ->
+         \* next to the ends of the type: exactly start + k*incr strictly before stop, nothing missing
+         LET a == x[1]  b == x[2]  s == x[3]
+             e == Ev(Call("@range", <<WI(a), WI(b), WI(s)>>), <<>>)
+             at(k) == WAdd(a, WMulInt(s, k))
+             wrong == (~s.neg /\ WLess(b, a)) \/ (s.neg /\ WLess(a, b))
+         IN IF wrong THEN e.k = "any"
+            ELSE IF WBefore(at(MAXGEN), b, s) THEN e.k = "any"                 \* more than MAXGEN elements
+            ELSE /\ IsOut(e)
+                 /\ LET r == LOf(e)  n == Len(r) IN
+                    /\ \A k \in 1..n : r[k] = WText(at(k - 1)) /\ WBefore(at(k - 1), b, s) /\ WFits64(at(k - 1))
+                    /\ ~WBefore(at(n), b, s)
+                    /\ (a = b => e.v = <<>>)
+    [] law = "slicesmall" ->
+         LET n == x[1]  s == x[2]  k == x[3]  l == Dist(n) IN
+         /\ SliceAltsW(l, WOfInt(s), k >= 0, WOfInt(k)) = SliceAlts(l, s, k >= 0, k)
+         /\ SelectW(l, WOfInt(s)) = SelectL(l, s)
+    [] law = "slicewide" ->
+         \* a length no list reaches is no length; a position no list reaches selects nothing / everything
+         LET n == x[1]  s == x[2]  h == x[3]  l == Dist(n)  r == Render(l)
+             S(args) == Ev(Call("@slice", <<A0>> \o args), <<r>>)
+             whole == S(<<Lit(I(0))>>)
+         IN /\ (s >= 0 - n => S(<<Lit(I(s)), WI(h)>>) = S(<<Lit(I(s))>>))
+            /\ OutIs(S(<<WI(h)>>), <<>>) /\ OutIs(S(<<WI(h), Lit(I(2))>>), <<>>) /\ OutIs(S(<<WI(h), WI(h)>>), <<>>)
+            /\ OutIs(whole, r) /\ S(<<WI(WNeg(h))>>) = whole /\ S(<<WI(WMin64)>>) = whole
+            /\ OutIs(Ev(Call("@select", <<A0, WI(h)>>), <<r>>), <<>>)
+            /\ OutIs(Ev(Call("@select", <<A0, WI(WNeg(h))>>), <<r>>), <<>>)
+            /\ OutIs(Ev(Call("@select", <<A0, WI(WMin64)>>), <<r>>), <<>>)
+            /\ LET e == S(<<WI(WMin64), WI(WMax64)>>) IN        \* virtual start -2^63 + n, length 2^63 - 1: ends before n - 1
+                 IF n <= 1 THEN OutIs(e, r) \/ (n = 1 /\ e.k = "oneof")
+                 ELSE e.k = "oneof" /\ {e.alts[j] : j \in 1..Len(e.alts)} = {r, Render(SubSeq(l, 1, n - 1))}
+            /\ Ev(Call("@slice", <<A0, Lit(I(1)), WI(WNeg(h))>>), <<r>>).k = "any"
+    [] law = "forwide" ->
+         \* @for start {1} < n, {0} + c  is  @range start start + n*c c, wherever the values are in the type
+         LET a == x[1]  s == x[2]  n == x[3]
+             f == Ev(Call("@for", <<WI(a), Call("lt", <<A1, Lit(I(n))>>), Call("sumi", <<A0, WI(s)>>)>>), <<>>)
+             fits == \A k \in 0..n : WFits64(WAdd(a, WMulInt(s, k)))
+         IN IF ~fits THEN f.k = "any"
+            ELSE /\ OutIs(f, Render([k \in 1..n |-> WText(WAdd(a, WMulInt(s, k - 1)))]))
+                 /\ f = Ev(Call("@range", <<WI(a), WI(WAdd(a, WMulInt(s, n))), WI(s)>>), <<>>)
 
 Init == c \in {[hdr |-> TRUE, law |-> w, x |-> 0] : w \in Laws}
 Next == /\ c.hdr
